@@ -1,6 +1,8 @@
 import Proofs.Lemmas.Tangent
 import Proofs.Lemmas.TangentAux
 import Proofs.Lemmas.AutogradRetr
+import Proofs.Lemmas.AutogradIdSE3
+import Proofs.Lemmas.AutogradIdSim3
 /-!
 # C05 — glue to C04's autograd library (`PP.AD`) and identity-element helper lemmas
 
@@ -48,4 +50,56 @@ theorem sim3JlInv_zero : sim3JlInv (⟨Vec3.zero, Vec3.zero, 0⟩ : sim3 ℝ) = 
   unfold sim3JlInv
   simp only [sim3ad_zero, DMat.zero77_mul_self]
   simp [DMat.zero, DVec.zero, DMat.one, DMat.add, DMat.sub, DMat.smul, DVec.smul, DVec.add, DVec.sub, DVec.basis, List.replicate, List.range, List.range.loop]
+
+/-! ### list encodings of RxSO3 / Sim3 and the curve `t ↦ Exp(t·p)·X` in C04's encoding -/
+section
+open AD
+theorem AD_toRx_toList (X : RxSO3 ℝ) : AD.toRx X.toList = X := by
+  obtain ⟨⟨q1, q2, q3, q4⟩, s⟩ := X
+  simp [AD.toRx, AD.qt, AD.nth, RxSO3.toList, Quat.toList]
+theorem AD_torx_toList (p : rxso3 ℝ) : AD.torx p.toList = p := by
+  obtain ⟨⟨a1, a2, a3⟩, s⟩ := p
+  simp [AD.torx, AD.v3, AD.nth, rxso3.toList, Vec3.toList]
+theorem AD_torx_smul (t : ℝ) (p : rxso3 ℝ) : AD.torx (DVec.smul t p.toList) = ⟨p.phi.smul t, p.sigma * t⟩ := by
+  obtain ⟨⟨a1, a2, a3⟩, s⟩ := p
+  simp [AD.torx, AD.v3, AD.nth, rxso3.toList, Vec3.toList, DVec.smul, Vec3.smul, mul_comm]
+theorem AD_toSim_toList (X : Sim3 ℝ) : AD.toSim X.toList = X := by
+  obtain ⟨⟨t1, t2, t3⟩, ⟨q1, q2, q3, q4⟩, s⟩ := X
+  simp [AD.toSim, AD.v3, AD.qt, AD.nth, Sim3.toList, Vec3.toList, Quat.toList]
+theorem AD_tosim_toList (p : sim3 ℝ) : AD.tosim p.toList = p := by
+  obtain ⟨⟨a1, a2, a3⟩, ⟨a4, a5, a6⟩, s⟩ := p
+  simp [AD.tosim, AD.v3, AD.nth, sim3.toList, Vec3.toList]
+theorem AD_tosim_smul (t : ℝ) (p : sim3 ℝ) : AD.tosim (DVec.smul t p.toList) = ⟨p.tau.smul t, p.phi.smul t, p.sigma * t⟩ := by
+  obtain ⟨⟨a1, a2, a3⟩, ⟨a4, a5, a6⟩, s⟩ := p
+  simp [AD.tosim, AD.v3, AD.nth, sim3.toList, Vec3.toList, DVec.smul, Vec3.smul, mul_comm]
+theorem RxSO3_retr_curve (eps : ℝ) (X : RxSO3 ℝ) (p : rxso3 ℝ) (hz : RxSO3Retr eps X ⟨Vec3.zero, 0⟩ = X) :
+    (∀ t : ℝ, retrF .RxSO3 eps X.toList (DVec.smul t p.toList) = (RxSO3Retr eps X ⟨p.phi.smul t, p.sigma * t⟩).toList) ∧
+    retrF .RxSO3 eps X.toList (DVec.smul 0 p.toList) = X.toList := by
+  have key : ∀ t : ℝ, retrF .RxSO3 eps X.toList (DVec.smul t p.toList) = (RxSO3Retr eps X ⟨p.phi.smul t, p.sigma * t⟩).toList := by
+    intro t
+    simp only [retrF, mulF, expF, AD_torx_smul, AD_toRx_toList, RxSO3Retr]
+  refine ⟨key, ?_⟩
+  have e : (⟨p.phi.smul 0, p.sigma * 0⟩ : rxso3 ℝ) = ⟨Vec3.zero, 0⟩ := by
+    congr 1 <;> first | (ext <;> lie_unfold <;> ring) | ring
+  rw [key 0, e, hz]
+theorem SE3_retr_curve (eps : ℝ) (X : SE3 ℝ) (p : se3 ℝ) (hz : SE3Retr eps X ⟨Vec3.zero, Vec3.zero⟩ = X) :
+    (∀ t : ℝ, retrF .SE3 eps X.toList (DVec.smul t p.toList) = (SE3Retr eps X ⟨p.tau.smul t, p.phi.smul t⟩).toList) ∧
+    retrF .SE3 eps X.toList (DVec.smul 0 p.toList) = X.toList := by
+  have key : ∀ t : ℝ, retrF .SE3 eps X.toList (DVec.smul t p.toList) = (SE3Retr eps X ⟨p.tau.smul t, p.phi.smul t⟩).toList := by
+    intro t
+    simp only [retrF, mulF, expF, AD_tose3_smul, AD_toSE3_toList, SE3Retr]
+  refine ⟨key, ?_⟩
+  have e : (⟨p.tau.smul 0, p.phi.smul 0⟩ : se3 ℝ) = ⟨Vec3.zero, Vec3.zero⟩ := by
+    congr 1 <;> (ext <;> lie_unfold <;> ring)
+  rw [key 0, e, hz]
+theorem SO3_retr_curve (eps : ℝ) (X : Quat ℝ) (p : Vec3 ℝ) (hz : SO3Retr eps X Vec3.zero = X) :
+    (∀ t : ℝ, retrF .SO3 eps X.toList (DVec.smul t p.toList) = (SO3Retr eps X (p.smul t)).toList) ∧
+    retrF .SO3 eps X.toList (DVec.smul 0 p.toList) = X.toList := by
+  have key : ∀ t : ℝ, retrF .SO3 eps X.toList (DVec.smul t p.toList) = (SO3Retr eps X (p.smul t)).toList := by
+    intro t
+    simp only [retrF, mulF, expF, AD_v3_smul, AD_qt_toList, SO3Retr]
+  refine ⟨key, ?_⟩
+  have e : p.smul 0 = Vec3.zero := by ext <;> lie_unfold <;> ring
+  rw [key 0, e, hz]
+end
 end PP
